@@ -63,7 +63,16 @@ def run_session(seq, verdicts, rnd, cfg_extra=None):
         addr = 0
         if kind in ('MAIL', 'RCPT') and wf:
             addr = s.aid(line[line.index(b'<') + 1:line.index(b'>')].decode())
-        s.send(line, kind=kind, wf=wf, addr=addr, content=0)
+        verb = line.strip().split(b' ')[0].upper().decode('ascii', 'replace')
+        try:
+            line.decode('utf-8')
+            form = 'ok' if wf else ('bare' if line.strip().upper() in (b'MAIL', b'RCPT', b'AUTH') else
+                                    'badparam' if b'> SIZE=abc' in line else 'malformed')
+        except UnicodeDecodeError:
+            form = 'undecodable'
+        if kind == 'UNKNOWN' and verb not in ('STARTTLS', 'AUTH'):
+            verb = 'UNKNOWN'
+        s.send(line, kind=kind, wf=wf, addr=addr, content=0, verb=verb if kind in ('UNKNOWN', 'AUTH') else kind, form=form)
         # the driver mirrors only one thing: after a 354 it must send message content
         last = [e for e in s.ev if e['t'] == 'reply']
         if kind == 'DATA' and last and last[-1]['code'] == 354 and not s.done:
@@ -76,8 +85,27 @@ def run_session(seq, verdicts, rnd, cfg_extra=None):
     return s.finish()
 
 
+def steps_of(ev):
+    """one record per command line for validation against the design model (spec/Trace_SmtpServerD.tla): what was sent
+    (kind by verb, form), which callbacks ran, the final reply code"""
+    out, cur = [], None
+    for e in ev:
+        if e['t'] == 'cmd':
+            if cur is not None:
+                out.append(cur)
+            cur = {'kind': e.get('verb', e['kind']), 'form': e.get('form', 'ok' if e['wf'] else 'malformed'), 'cbs': [], 'code': 0}
+        elif e['t'] == 'cb' and cur is not None:
+            cur['cbs'].append(e['name'])
+        elif e['t'] == 'reply' and cur is not None and cur['code'] == 0:
+            cur['code'] = e['code']
+    if cur is not None:
+        out.append(cur)
+    return [s_ for s_ in out if s_['code']]
+
+
 def main():
     out, shard, nshards, tier, seed = sys.argv[1], int(sys.argv[2]), int(sys.argv[3]), sys.argv[4], int(sys.argv[5])
+    mode = sys.argv[6] if len(sys.argv) > 6 else 'sessions'
     rnd = random.Random(seed * 1103515245 % (1 << 31) + shard)
     quick = tier == 'quick'
     f = open(out, 'w')
@@ -88,6 +116,14 @@ def main():
         nonlocal n
         ev = run_session(seq, verdicts, rnd, {'auth': [b'PLAIN']} if auth else None)
         stats['executions'] += 1
+        if mode != 'sessions':
+            # design-model validation: only the command steps, for the sessions of one server configuration
+            if (mode == 'steps-auth') != bool(auth):
+                return
+            f.write(json.dumps({'id': shard + n * nshards, 'cls': 'steps-' + cls, 'cfg': {'auth': 1 if auth else 0}, 'steps': steps_of(ev),
+                                'ev': []}, separators=(',', ':')) + '\n')
+            n += 1
+            return
         f.write(json.dumps({'id': shard + n * nshards, 'cls': cls, 'cfg': {'stall': 0, 'deadline': 0, 'seq': seq, 'auth': 1 if auth else 0}, 'ev': ev},
                            separators=(',', ':')) + '\n')
         n += 1
